@@ -107,6 +107,17 @@ func (v *Voter) Verify(proposal *hotstuff.ProposeMsg) (err error) {
 	if err := v.auth.VerifyAnyQC(proposal); err != nil {
 		return err
 	}
+	// the block must directly extend the block that its quorum certificate certifies;
+	// the rules follow certificate links while committing follows parent links.
+	qc := proposal.Block.QuorumCert()
+	if proposal.Block.Parent() != qc.BlockHash() {
+		return fmt.Errorf("block parent %s is not the block certified by its quorum certificate (%s)",
+			proposal.Block.Parent().SmallString(), qc.BlockHash().SmallString())
+	}
+	// qc.View() is the view of the certified block (checked by VerifyQuorumCert).
+	if blockView <= qc.View() {
+		return fmt.Errorf("block view %d is not higher than view %d of the block it extends", blockView, qc.View())
+	}
 	// ensure the block came from the expected leader.
 	leaderID := v.leaderRotation.GetLeader(blockView)
 	if proposal.ID != leaderID {
